@@ -66,3 +66,54 @@ CONTRACTS = [
         props=["C14"],
     ),
 ]
+
+
+# ---------------------------------------------------------------------------------------------- distribution constructors (C14)
+def replay_gauss_init(inp):
+    from lightworks.interferometers import dists
+    lo, hi = inp["min_value"], inp["max_value"]
+    c, d = inp["center"], inp["deviation"]
+    if isinstance(c, dict) or isinstance(d, dict) or isinstance(lo, dict) or isinstance(hi, dict):
+        return None
+    try:
+        g = dists.Gaussian(c, d, min_value=lo, max_value=hi)
+    except (ValueError, TypeError):
+        return None if (lo is not None and hi is not None and hi < lo) or isinstance(lo, bool) or isinstance(hi, bool) else f"Gaussian({c},{d},{lo},{hi}) was refused"
+    want_lo = float("-inf") if lo is None else lo
+    want_hi = float("inf") if hi is None else hi
+    if g._min_value != want_lo or g._max_value != want_hi or g._center != c or g._deviation != d:
+        return f"Gaussian({c}, {d}, min_value={lo}, max_value={hi}) stores bounds [{g._min_value}, {g._max_value}], expected [{want_lo}, {want_hi}]"
+    return None
+
+
+def enum_gauss_init():
+    for lo in (None, 0, 0.0, -1.5, 2):
+        for hi in (None, 0, 0.0, 3.5):
+            yield {"center": 0.5, "deviation": 0.1, "min_value": lo, "max_value": hi}
+
+
+_GSELF = "obj:Gaussian{_center:none;_deviation:none;_min_value:none;_max_value:none;_rng:none}"
+GAUSS_INIT = Contract(
+    target=f"{G}:Gaussian.__init__",
+    types={"self": _GSELF, "center": ["real", "int"], "deviation": "real", "min_value": ["real", "int", "none"], "max_value": ["real", "int", "none"]},
+    requires=[], modifies=["self._center", "self._deviation", "self._min_value", "self._max_value", "self._rng"],
+    ensures={
+        # the declared bounds are stored as given - also when a bound is 0 - and a missing bound means no bound on that side
+        "min_stored": "self._min_value == (min_value if not is_none(min_value) else 0 - np.inf)",
+        "max_stored": "self._max_value == (max_value if not is_none(max_value) else np.inf)",
+        "centre_and_width": "self._center == center and self._deviation == deviation",
+    },
+    raises={"ValueError": "(max_value if not is_none(max_value) else np.inf) < (min_value if not is_none(min_value) else 0 - np.inf)"},
+    replay=replay_gauss_init, props=["C14"],
+)
+GAUSS_INIT.enum = enum_gauss_init
+_TSELF = "obj:TopHat{_min_value:none;_max_value:none;_rng:none}"
+TOPHAT_INIT = Contract(
+    target=f"{T}:TopHat.__init__",
+    types={"self": _TSELF, "min_value": ["real", "int"], "max_value": ["real", "int"]},
+    requires=[], modifies=["self._min_value", "self._max_value", "self._rng"],
+    ensures={"bounds_stored": "self._min_value == min_value and self._max_value == max_value"},
+    raises={"ValueError": "max_value < min_value"},
+    props=["C14"],
+)
+CONTRACTS += [GAUSS_INIT, TOPHAT_INIT]
